@@ -34,6 +34,7 @@ def run(ctx):
     r5_corral_brackets(ctx)
     r6_type_dispatch(ctx)
     r7_corral_poles(ctx)
+    r8_sampler(ctx)
 
 
 def _single_return(fn):
@@ -217,6 +218,13 @@ def r5_corral_brackets(ctx):
         ctx.ob("C16.R5", "coba/learners/corral.py", "CorralLearner._log_barrier_omd", lp, "the bracket list walked pairwise is sorted", ok, detail={"brackets": [unparse(v)[:120] for v in vals]})
 
 
+def r8_sampler(ctx):
+    from . import c05
+    ctx.rule("C16.R8", "the action a PMF learner plays is one its policy gives positive probability: CobaRandom.choice (behind choicew / PMFPredictor) returns the first "
+                       "item whose cumulative weight strictly exceeds U*tot -- an item of weight 0 is never drawn, not even in the generator state U == 0")
+    c05.weighted_choice(ctx, "C16.R8")
+
+
 def r6_type_dispatch(ctx):
     from . import typetable
     ctx.rule("C16.R6", "actions of any dense/sparse type are made hashable: make_hashable classifies through the Dense/Sparse ABCs (which cover lists, tuples, "
@@ -299,6 +307,8 @@ def _reg_dict(tree):
 
 
 CONTROLS = [
+    ("sampler bisects to the left", "coba/random.py", M.replace_expr("CobaRandom.choice", "next(compress(seq, map((next(self._randu) * tot).__lt__, accumulate(weights))))",
+                                                                    "seq[bisect_left(list(accumulate(weights)), next(self._randu) * tot)]"), "C16.R8"),
     ("make_hashable tests builtin types", "coba/learners/bandit.py", M.chain(M.replace_expr("make_hashable", "isinstance(item, Dense)", "isinstance(item, (list, tuple))"),
                                                                             M.replace_expr("make_hashable", "isinstance(item, Sparse)", "isinstance(item, dict)")), "C16.R6"),
     ("Sparse registers dict only", "coba/primitives.py", lambda tree: _reg_dict(tree), "C16.R6"),
